@@ -617,6 +617,103 @@ static void do_reusebuf(const char *order) {
 	free(shared); for (d = 1; d <= 2; d++) { free(ca[d].p); free(leaf[d].p); free(crl[d].p); }
 }
 
+/* ------------------------------------------------------------------ wave 5: certificate lists, x509_crl_check, RevokedCertificate with entry extensions, *_to_der/_from_der wrappers */
+/* certsidx <n> <bad -1|pos> <index>: n certificates (serial last byte = position + 1), optionally a non-certificate at <bad> */
+static void do_certsidx(char **w) {
+	int n = atoi(w[1]), bad = atoi(w[2]), idx = atoi(w[3]); uint8_t *all = malloc(1); size_t alen = 0; int i; uint8_t name[256]; size_t namelen = 0;
+	const uint8_t *c = NULL; size_t cl = 0; size_t cnt = 0; int r; const uint8_t *ser, *iss; size_t sl, il;
+	x509_name_set(name, &namelen, sizeof name, "CN", NULL, NULL, "VERIF", NULL, "list");
+	for (i = 0; i < n; i++) {
+		if (i == bad) { static const uint8_t junk[] = { 0x30, 0x03, 0x02, 0x01, 0x05 }; all = realloc(all, alen + sizeof junk); memcpy(all + alen, junk, sizeof junk); alen += sizeof junk; }
+		else { uint8_t serial[4] = { 1, 1, 1, (uint8_t)(i + 1) }; size_t len = 0; uint8_t *q;
+			if (x509_cert_sign_to_der(X509_version_v3, serial, 4, OID_sm2sign_with_sm3, name, namelen, 1699990000, 1700090000, name, namelen, &keys[1], NULL, 0, NULL, 0, NULL, 0,
+				&keys[1], SM2_DEFAULT_ID, SM2_DEFAULT_ID_LENGTH, NULL, &len) != 1) { printf("ERR build"); free(all); return; }
+			all = realloc(all, alen + len); q = all + alen;
+			x509_cert_sign_to_der(X509_version_v3, serial, 4, OID_sm2sign_with_sm3, name, namelen, 1699990000, 1700090000, name, namelen, &keys[1], NULL, 0, NULL, 0, NULL, 0,
+				&keys[1], SM2_DEFAULT_ID, SM2_DEFAULT_ID_LENGTH, &q, &alen); }
+	}
+	{ uint8_t *e = malloc(alen ? alen : 1); memcpy(e, all, alen); free(all); all = e; }
+	r = x509_certs_get_cert_by_index(all, alen, idx, &c, &cl);
+	if (r == 1 && x509_cert_get_issuer_and_serial_number(c, cl, &iss, &il, &ser, &sl) == 1) printf("idx=%d", ser[sl - 1]); else printf("idx=%s", r == 0 ? "none" : "ERR");
+	r = x509_certs_get_last(all, alen, &c, &cl);
+	if (r == 1 && x509_cert_get_issuer_and_serial_number(c, cl, &iss, &il, &ser, &sl) == 1) printf(" last=%d", ser[sl - 1]); else printf(" last=%s", r == 0 ? "none" : "ERR");
+	r = x509_certs_get_count(all, alen, &cnt);
+	if (r == 1) printf(" count=%zu", cnt); else printf(" count=ERR");
+	free(all);
+}
+/* crlchk <version> <this> <next|-1> <now> <exts a,b|->: x509_crl_check on a CRL with extensions built by the CRL builders */
+static void do_crlchk(char **w) {
+	int version = atoi(w[1]); long long thisu = strtoll(w[2], NULL, 10), nextu = strtoll(w[3], NULL, 10), now = strtoll(w[4], NULL, 10);
+	uint8_t exts[1024]; size_t el = 0; uint8_t name[256]; size_t namelen = 0; buf_t iss, ex; blob_t none = { NULL, 0 }, c; char *save = NULL, *t;
+	x509_name_set(name, &namelen, sizeof name, "CN", NULL, NULL, "VERIF", NULL, "chk");
+	if (strcmp(w[5], "-")) for (t = strtok_r(w[5], ",", &save); t; t = strtok_r(NULL, ",", &save)) {
+		char *dot = strchr(t, '.'); int var = dot ? atoi(dot + 1) : 0; if (dot) *dot = 0;
+		if (add_builder(1, t, var, exts, &el, sizeof exts) != 1) { printf("ERR build"); return; } }
+	iss.p = name; iss.n = namelen; ex.p = exts; ex.n = el;
+	c = issue_crl_raw(version, iss, thisu, nextu, none, ex, 1);
+	if (!c.p) { printf("ERR issue"); return; }
+	printf("%s", x509_crl_check(c.p, c.n, (time_t)now) == 1 ? "1" : "ERR");
+	free(c.p);
+}
+/* revokeex <serial> <date> <reason> <invalid date> <issuer> <via cert 0|1>: RevokedCertificate with entry extensions */
+static void do_revokeex(char **w) {
+	buf_t serial = hex2buf(w[1]), iss = hex2buf(w[5]); long long date = strtoll(w[2], NULL, 10), inv = strtoll(w[4], NULL, 10); int reason = atoi(w[3]), via = atoi(w[6]);
+	uint8_t b[1024]; uint8_t *p = b; size_t l = 0; int r; const uint8_t *s2, *i2, *cp; size_t s2l, i2l, cl; time_t d2, inv2; int r2;
+	if (via) {
+		uint8_t name[256]; size_t namelen = 0; size_t clen = 0; uint8_t *cert, *q;
+		x509_name_set(name, &namelen, sizeof name, "CN", NULL, NULL, "VERIF", NULL, "rv");
+		if (x509_cert_sign_to_der(X509_version_v3, serial.p, serial.n, OID_sm2sign_with_sm3, name, namelen, 1699990000, 1700090000, name, namelen, &keys[1], NULL, 0, NULL, 0, NULL, 0,
+			&keys[1], SM2_DEFAULT_ID, SM2_DEFAULT_ID_LENGTH, NULL, &clen) != 1) { printf("ERR cert"); free(serial.p); free(iss.p); return; }
+		cert = malloc(clen); q = cert; clen = 0;
+		x509_cert_sign_to_der(X509_version_v3, serial.p, serial.n, OID_sm2sign_with_sm3, name, namelen, 1699990000, 1700090000, name, namelen, &keys[1], NULL, 0, NULL, 0, NULL, 0,
+			&keys[1], SM2_DEFAULT_ID, SM2_DEFAULT_ID_LENGTH, &q, &clen);
+		r = x509_cert_revoke_to_der(cert, clen, (time_t)date, reason, (time_t)inv, iss.n ? iss.p : NULL, iss.n, &p, &l);
+		free(cert);
+	} else r = x509_revoked_cert_to_der_ex(serial.p, serial.n, (time_t)date, reason, (time_t)inv, iss.n ? iss.p : NULL, iss.n, &p, &l);
+	if (r != 1) { printf("ERR build"); free(serial.p); free(iss.p); return; }
+	printf("der="); puthex(b, l);
+	cp = b; cl = l;
+	if (x509_revoked_cert_from_der_ex(&s2, &s2l, &d2, &r2, &inv2, &i2, &i2l, &cp, &cl) != 1 || cl) printf(" parse=ERR");
+	else { printf(" serial="); puthex(s2, s2l); printf(" date=%lld reason=%d invalid=%lld issuer=", (long long)d2, r2, (long long)inv2); puthex(i2, i2l); }
+	free(serial.p); free(iss.p);
+}
+/* wrap <cert|req|crl>: x509_*_to_der then x509_*_from_der of an issued object: same bytes, nothing left over */
+static void do_wrap(const char *kind) {
+	uint8_t name[256]; size_t namelen = 0; uint8_t serial[4] = { 9, 9, 9, 9 }; uint8_t obj[1024], out[1100]; uint8_t *q = obj, *p = out; size_t ol = 0, l = 0; const uint8_t *a, *cp; size_t al, cl; int r1, r2;
+	x509_name_set(name, &namelen, sizeof name, "CN", NULL, NULL, "VERIF", NULL, "wrap");
+	if (!strcmp(kind, "cert")) {
+		x509_cert_sign_to_der(X509_version_v3, serial, 4, OID_sm2sign_with_sm3, name, namelen, 1699990000, 1700090000, name, namelen, &keys[1], NULL, 0, NULL, 0, NULL, 0, &keys[1], SM2_DEFAULT_ID, SM2_DEFAULT_ID_LENGTH, &q, &ol);
+		r1 = x509_cert_to_der(obj, ol, &p, &l); cp = out; cl = l; r2 = x509_cert_from_der(&a, &al, &cp, &cl);
+	} else if (!strcmp(kind, "req")) {
+		x509_req_sign_to_der(X509_version_v1, name, namelen, &keys[1], name, 0, OID_sm2sign_with_sm3, &keys[1], SM2_DEFAULT_ID, SM2_DEFAULT_ID_LENGTH, &q, &ol);
+		r1 = x509_req_to_der(obj, ol, &p, &l); cp = out; cl = l; r2 = x509_req_from_der(&a, &al, &cp, &cl);
+	} else {
+		x509_crl_sign_to_der(X509_version_v2, OID_sm2sign_with_sm3, name, namelen, 1699990000, 1700090000, NULL, 0, NULL, 0, &keys[1], SM2_DEFAULT_ID, SM2_DEFAULT_ID_LENGTH, &q, &ol);
+		r1 = x509_crl_to_der(obj, ol, &p, &l); cp = out; cl = l; r2 = x509_crl_from_der(&a, &al, &cp, &cl);
+	}
+	printf("to_der=%d from_der=%d same=%d rest=%zu", r1, r2, r1 == 1 && r2 == 1 && l == ol && al == ol && !memcmp(a, obj, ol), cl);
+	/* a truncated object must be refused by from_der */
+	cp = out; cl = l ? l - 1 : 0;
+	printf(" truncated=%d", (!strcmp(kind, "cert") ? x509_cert_from_der(&a, &al, &cp, &cl) : !strcmp(kind, "req") ? x509_req_from_der(&a, &al, &cp, &cl) : x509_crl_from_der(&a, &al, &cp, &cl)) == 1);
+}
+
+/* gnames <choice:hex,choice:hex,...> <find>: GeneralNames built with x509_general_names_add_general_name, read back with
+ * x509_general_name_from_der element by element and searched with x509_general_names_get_first */
+int x509_general_names_get_first(const uint8_t *gns, size_t gns_len, const uint8_t **ptr, int choice, const uint8_t **d, size_t *dlen);   /* exported, not in the header */
+static void do_gnames(char *spec, int want) {
+	uint8_t g[2048]; size_t gl = 0; char *save = NULL, *t; const uint8_t *p; size_t pl; size_t n = 0; const uint8_t *d; size_t dl; int r;
+	for (t = strtok_r(spec, ",", &save); t; t = strtok_r(NULL, ",", &save)) {
+		char *c = strchr(t, ':'); buf_t v; if (!c) { printf("ERR spec"); return; } *c++ = 0; v = hex2buf(c);
+		r = x509_general_names_add_general_name(g, &gl, sizeof g, atoi(t), v.p, v.n); free(v.p);
+		if (r != 1) { printf("ERR build"); return; }
+	}
+	printf("der="); puthex(g, gl);
+	p = g; pl = gl; printf(" read=");
+	while (pl) { int ch; if (x509_general_name_from_der(&ch, &d, &dl, &p, &pl) != 1) { printf("%sERR", n ? ";" : ""); n = 999; break; } printf("%s%d:", n ? ";" : "", ch); puthex(d, dl); n++; }
+	r = x509_general_names_get_first(g, gl, NULL, want, &d, &dl);
+	if (r == 1) { printf(" first=%d:", want); puthex(d, dl); } else printf(" first=%s", r == 0 ? "none" : "ERR");
+}
+
 /* ------------------------------------------------------------------ single-bit modifications */
 static void do_flipall(size_t nw, char **w) {
 	const char *kind = w[1]; size_t step = strtoul(w[2], NULL, 10), off = strtoul(w[3], NULL, 10), i; int b;
@@ -659,6 +756,11 @@ static void handle(size_t nw, char **w) {
 	else if (!strcmp(w[0], "sigalg") && nw == 5) do_sigalg(w);
 	else if (!strcmp(w[0], "crlcheck") && nw == 9) do_crlcheck(w);
 	else if (!strcmp(w[0], "reusebuf") && nw == 2) do_reusebuf(w[1]);
+	else if (!strcmp(w[0], "certsidx") && nw == 4) do_certsidx(w);
+	else if (!strcmp(w[0], "gnames") && nw == 3) do_gnames(w[1], atoi(w[2]));
+	else if (!strcmp(w[0], "crlchk") && nw == 6) do_crlchk(w);
+	else if (!strcmp(w[0], "revokeex") && nw == 7) do_revokeex(w);
+	else if (!strcmp(w[0], "wrap") && nw == 2) do_wrap(w[1]);
 	else if (!strcmp(w[0], "builders")) printf("%s", COVERED_BUILDERS);
 	else if (!strcmp(w[0], "extsolo") && nw == 3) do_extsolo(!strcmp(w[1], "r"), w[2]);
 	else if (!strcmp(w[0], "extlist") && nw == 4) do_extlist(!strcmp(w[1], "r"), w[2]);
